@@ -198,7 +198,8 @@ fn gen_ops(dna: &mut Dna) -> Vec<CodecOp> {
         };
         let false_pct = [0u32, 50, 90, 99, 100][dna.below(5)];
         let zero_pct = [0u32, 50, 90, 99][dna.below(4)];
-        let (wv, wm) = [(10u32, 45u32), (0, 50), (34, 33), (2, 10), (80, 10)][dna.below(5)];
+        // the last three mixes use a single kind of operation (only flags / only values / only corrections)
+        let (wv, wm) = [(10u32, 45u32), (0, 50), (34, 33), (2, 10), (80, 10), (0, 100), (100, 0), (0, 0)][dna.below(8)];
         let mut m = Mix::new(dna.u64());
         for _ in 0..n {
             ops.push(gen_op(&mut m, false_pct, zero_pct, wv, wm));
